@@ -92,7 +92,7 @@ pub use src::*;
 /// Under Kani this is `kani::assert` (gets a reachability twin); natively a panic.
 #[macro_export]
 macro_rules! vassert {
-    ($c:expr, $m:literal $(,)?) => {{
+    ($c:expr, $m:expr $(,)?) => {{
         #[cfg(kani)]
         kani::assert($c, $m);
         #[cfg(not(kani))]
@@ -100,6 +100,35 @@ macro_rules! vassert {
             panic!("{}", $m);
         }
     }};
+}
+
+/// `Result::unwrap` / `Option::unwrap` for harness code WITHOUT the `core::fmt` machinery that
+/// `unwrap()`'s panic path drags into the symbolic execution (measured: minutes and GBs).
+/// A failure is reported under the given role.
+#[macro_export]
+macro_rules! vok {
+    ($e:expr, $m:literal $(,)?) => {
+        match $e {
+            Ok(v) => v,
+            Err(_) => {
+                // role prefix NEVER: = expected to be unreachable (exempt from the vacuity rule)
+                $crate::vassert!(false, concat!("ROLE:NEVER:", $m));
+                $crate::verif_support::diverge()
+            }
+        }
+    };
+}
+#[macro_export]
+macro_rules! vsome {
+    ($e:expr, $m:literal $(,)?) => {
+        match $e {
+            Some(v) => v,
+            None => {
+                $crate::vassert!(false, concat!("ROLE:NEVER:", $m));
+                $crate::verif_support::diverge()
+            }
+        }
+    };
 }
 
 /// Vacuity witness: the engine requires every cover to be SATISFIED.
@@ -113,6 +142,16 @@ macro_rules! vcover {
             let _ = $c;
         }
     }};
+}
+
+pub fn diverge() -> ! {
+    #[cfg(kani)]
+    kani::assume(false);
+    #[allow(clippy::empty_loop)]
+    loop {
+        #[cfg(not(kani))]
+        panic!("harness diverged after a failed vok!/vsome!");
+    }
 }
 
 pub fn any_usize() -> usize {
